@@ -1,10 +1,13 @@
 #!/bin/bash
-# usage: tools/confirm_seed.sh <worktree> <outdir(with patch.diff, demo.rs)> <file to paste demo into> <test name filter>
+# usage: tools/confirm_seed.sh <worktree> <outdir(with patch.diff, demo.rs)> <file to paste demo into> <test name filter> [append]
 # Confirms: patch compiles, existing lib tests pass with the patch, demo passes without and fails with the patch.
-wt="$1"; out="$2"; file="$3"; filt="$4"
+# default: the demo goes inside the file's final `mod test { .. }`; `append`: the demo is a module of its own, appended to the file.
+wt="$1"; out="$2"; file="$3"; filt="$4"; mode="${5:-inside}"
 cd "$wt" || exit 2
 git checkout -q -- . ; res="$out/confirm.txt"; : > "$res"
-paste() { head -n -1 "$file" > /tmp/paste.$$; cat "$out/demo.rs" >> /tmp/paste.$$; echo "}" >> /tmp/paste.$$; cp /tmp/paste.$$ "$file"; rm -f /tmp/paste.$$; }
+paste() {
+  if [ "$mode" = append ]; then cat "$out/demo.rs" >> "$file"
+  else head -n -1 "$file" > /tmp/paste.$$; cat "$out/demo.rs" >> /tmp/paste.$$; echo "}" >> /tmp/paste.$$; cp /tmp/paste.$$ "$file"; rm -f /tmp/paste.$$; fi; }
 git apply "$out/patch.diff" && echo "patch applies" >> "$res"
 cargo test --offline -p worterbuch --lib 2>&1 | grep -E "^test result|error" | head -3 | sed 's/^/with patch, existing lib tests: /' >> "$res"
 paste
